@@ -289,6 +289,7 @@ def _job(args):
     try:
         mod = importlib.import_module(modname)
         h = next(x for x in mod.HARNESSES if x.name == hname)
+        del PENDING_VALIDATION[:]
         facade.install(getattr(mod, "EXTRA_STUBS", None))
         ex = core.Explorer(timeout_ms=h.timeout_ms, max_paths=h.max_paths,
                            product_abstraction=h.product_abstraction,
@@ -327,6 +328,21 @@ def _job(args):
             out["cex"].append(dict(label=cx.label, inputs=_jsonable(inputs), info=_jsonable(cx.info),
                                    reproduced=bool(rep), candidate_only=rep is None, detail=str(detail)[:600]))
         out["n_cex_total"] = len(ex.cex)
+        if getattr(h, "validate", None) is not None and PENDING_VALIDATION:
+            nval, mism = 0, []
+            for inp in list(PENDING_VALIDATION):
+                try:
+                    with warnings.catch_warnings():
+                        warnings.simplefilter("ignore")
+                        bad = h.validate(inp, **params)
+                except Exception as e:
+                    bad = ["raised " + repr(e)[:120]]
+                if bad:
+                    mism.append(dict(inputs={k: v for k, v in inp.items() if not k.startswith("__")}, violated=bad[:4]))
+                else:
+                    nval += 1
+            out["validated"] = nval
+            out["validation_mismatch"] = mism[:3]
         if h.concrete is not None:
             try:
                 out["validated"] = int(h.concrete(params))
@@ -406,6 +422,7 @@ def run_property(pid, modname, tier, seed, level_note, assumptions, bounds, only
     agg = core.Stats()
     violations, known_hits, unconfirmed, errors, inconclusive, candidates = [], [], [], [], [], []
     validated = 0
+    mismatches = []   # translator validation: real code violates a predicate on inputs of a path that was proven
     per_h = {}
     samples = []
     units = {}
@@ -439,6 +456,8 @@ def run_property(pid, modname, tier, seed, level_note, assumptions, bounds, only
             ph["inconclusive"] = sorted(set(ph["inconclusive"] + r["inconclusive"]))[:10]
             inconclusive.append(f"{r['harness']} {r['params']}: solver unknown for {r['inconclusive'][:5]}")
         validated += r.get("validated", 0)
+        for mm in r.get("validation_mismatch", []) or []:
+            mismatches.append(dict(harness=r["harness"], params=r["params"], **mm))
         if r.get("validation_error"):
             errors.append(f"{r['harness']} {r['params']}: differential validation failed: {r['validation_error']}")
         if r.get("samples") and len(samples) < 6:
@@ -521,6 +540,10 @@ def run_property(pid, modname, tier, seed, level_note, assumptions, bounds, only
                      f"symbolic pre-state that may be unreachable; only runs from a fresh object are reported)")
     for i in inconclusive[:20]:
         lines.append(f"INCONCLUSIVE property={pid} {i}")
+    for mm in mismatches[:5]:
+        lines.append(f"VALIDATION-MISMATCH property={pid} harness={mm['harness']} params={mm['params']}: the real code on the "
+                     f"inputs of a proven path shows {mm['violated']} (inputs {str(mm['inputs'])[:200]}) - encoding and "
+                     f"implementation disagree; the proof of this configuration is not trusted")
     for b in broken:
         lines.append(f"HARNESS-BROKEN property={pid} {b}")
     for e in errors[:8]:
@@ -554,7 +577,8 @@ def run_property(pid, modname, tier, seed, level_note, assumptions, bounds, only
                         "(every branch on symbolic data forks; infeasible sides pruned by z3); transitions = SMT "
                         "queries discharged (branch feasibility + obligations); obligations are assertions "
                         "checked for ALL values of the symbolic inputs on each path.",
-            exhaustive=not inconclusive and not errors and not broken,
+            exhaustive=not inconclusive and not errors and not broken and not mismatches,
+            validation_mismatches=mismatches[:10],
             obligations=tot["obligations"], discharged=tot["proved"],
             queries_by_verdict=dict(unsat=tot["unsat"], sat=tot["sat"], unknown=tot["unknown"]),
             solver_seconds=tot["solver_s"], solver="z3 " + z3.get_version_string(),
@@ -793,6 +817,9 @@ class Dual:
         return core.s_lt(a, b) if self.sym else bool(a < b)
 
 
+PENDING_VALIDATION = []   # per worker job: path models awaiting a concrete run of the real code
+
+
 def dual_harness(name, scenario, configs, units, resample=0, **kw):
     """Harness whose symbolic run and replay share one scenario(d: Dual, **params) function.
     resample=k (opt-in, only for scenarios without solver-side assumptions on their continuous inputs): when the solver's
@@ -800,7 +827,23 @@ def dual_harness(name, scenario, configs, units, resample=0, **kw):
     uninterpreted one - the replay keeps the counterexample's discrete choices (label patterns, operations) and re-draws
     the continuous inputs k times inside their declared ranges; a violation on the real code is reported with those inputs."""
     def sym(c, **params):
+        ncex = len(c.cex)
         scenario(Dual(c), **params)
+        # translator validation: for the first paths of every configuration a model of the path condition is kept; after
+        # the exploration the same scenario runs on the REAL code with these inputs and must satisfy every predicate
+        if len(PENDING_VALIDATION) < 2 and len(c.cex) == ncex and getattr(c, "inputs", None):
+            try:
+                m = dyadic_model(c, None) or c.model()
+            except z3.Z3Exception:
+                m = c.model()
+            if m is not None:
+                inp = concretize(getattr(c, "inputs", {}), m)
+                PENDING_VALIDATION.append(_unjson(_jsonable(inp)))
+
+    def validate(inputs, **params):
+        d = Dual(None, inputs)
+        scenario(d, **params)
+        return sorted(d.violated)
 
     def replay(inputs, label, **params):
         tries = [(inputs, None)] + [(inputs, np.random.RandomState(1000 + i)) for i in range(resample)]
@@ -827,4 +870,6 @@ def dual_harness(name, scenario, configs, units, resample=0, **kw):
                 return True, (f"{name}{params}: symbolic predicate {label}; on the real code the same inputs violate {other} "
                               f"{d.violated[other]}; inputs {shown}")
         return False, last
-    return Harness(name, sym, replay, configs, units, **kw)
+    h = Harness(name, sym, replay, configs, units, **kw)
+    h.validate = validate
+    return h
